@@ -1091,31 +1091,21 @@ impl MutableArchive {
                 base_key
             };
 
-            // Remember original length before padding (reserved for future use)
-            let _original_len = output_data.len();
-
-            // Pad to 4-byte boundary for encryption
-            while !output_data.len().is_multiple_of(4) {
-                output_data.push(0);
-            }
-
-            // Convert to u32s for encryption
-            let mut u32_buffer: Vec<u32> = output_data
+            // Encrypt the full dwords in place; the trailing len % 4 bytes stay in the clear, as the MPQ
+            // cipher specifies and as the reader expects. (Padding the data to a multiple of 4 changed the
+            // stored size: compressed data padded up to exactly the uncompressed size was then taken for
+            // raw data by the reader and came back as the compressed bytes.)
+            let full = output_data.len() / 4 * 4;
+            let mut u32_buffer: Vec<u32> = output_data[..full]
                 .chunks_exact(4)
                 .map(|chunk| u32::from_le_bytes([chunk[0], chunk[1], chunk[2], chunk[3]]))
                 .collect();
 
             encrypt_block(&mut u32_buffer, key);
 
-            // Convert back to bytes, but preserve original length info
-            output_data.clear();
-            for &value in &u32_buffer {
-                output_data.extend_from_slice(&value.to_le_bytes());
+            for (chunk, value) in output_data[..full].chunks_exact_mut(4).zip(&u32_buffer) {
+                chunk.copy_from_slice(&value.to_le_bytes());
             }
-
-            // For encrypted files, the compressed_size should include padding,
-            // but file_size should be the original unpadded size
-            // This will be handled in the block entry creation
 
             flags |= BlockEntry::FLAG_ENCRYPTED;
             if options.fix_key {
